@@ -17,6 +17,7 @@ import (
 	"context"
 	"fmt"
 	"sync"
+	"sync/atomic"
 	"time"
 
 	eth2client "github.com/attestantio/go-eth2-client"
@@ -72,7 +73,7 @@ type Service struct {
 	signedBeaconBlockProvider     eth2client.SignedBeaconBlockProvider
 	attestationAggregator         attestationaggregator.Service
 	beaconCommitteeSubscriber     beaconcommitteesubscriber.Service
-	activeValidators              int
+	activeValidators              atomic.Int64
 	subscriptionInfos             map[phase0.Epoch]map[phase0.Slot]map[phase0.CommitteeIndex]*beaconcommitteesubscriber.Subscription
 	subscriptionInfosMutex        sync.Mutex
 	accountsRefresher             accountmanager.Refresher
@@ -198,9 +199,9 @@ func New(ctx context.Context, params ...Parameter) (*Service, error) {
 	if err != nil {
 		return nil, errors.Wrap(err, "failed to obtain active validator indices for the current epoch")
 	}
-	if len(validatorIndices) != s.activeValidators {
-		log.Info().Int("old_validators", s.activeValidators).Int("new_validators", len(validatorIndices)).Msg("Change in number of active validators")
-		s.activeValidators = len(validatorIndices)
+	if int64(len(validatorIndices)) != s.activeValidators.Load() {
+		log.Info().Int64("old_validators", s.activeValidators.Load()).Int("new_validators", len(validatorIndices)).Msg("Change in number of active validators")
+		s.activeValidators.Store(int64(len(validatorIndices)))
 	}
 	syncCommitteeValidatorIndices, err := s.syncCommitteeIndicesForEpoch(ctx, epoch)
 	if err != nil {
